@@ -45,7 +45,7 @@ uint64_t mvsim_rng_below(mvsim_rng *r, uint64_t n) {
 /* workers (coroutines)                                                */
 /* ------------------------------------------------------------------ */
 enum { W_UNUSED = 0, W_READY, W_SPIN, W_BARRIER, W_JOINW, W_QUIESCE, W_DONE };
-enum { RQ_POINT = 1, RQ_SPIN, RQ_BARRIER, RQ_JOINW, RQ_EXIT, RQ_QUIESCE, RQ_CLOCK };
+enum { RQ_POINT = 1, RQ_SPIN, RQ_BARRIER, RQ_JOINW, RQ_EXIT, RQ_QUIESCE, RQ_CLOCK, RQ_FUNC = 8 };
 
 typedef struct worker {
   void *rsp;                 /* MUST be first: used by mvsim_switch.S */
@@ -55,6 +55,8 @@ typedef struct worker {
   int saved_rank;
   int last_kind, last_site;
   uint64_t spin_seen;
+  uint64_t obs;              /* g_progress when this worker last resumed from a non-FUNC hook */
+  int req_kind;              /* kind of the hook the worker is parked in */
   void *barrier;
   int join_target;
   long prio;
@@ -105,17 +107,31 @@ static unsigned char g_pairmap[160 * 160 / 8 + 1];
 #define RING 2048
 static struct { uint64_t step; short wid, kind, site; const void *p; } g_ring[RING];
 static uint64_t g_ring_n;
+/* and the most recent events of each worker separately (a spinning or parked worker's last steps fall out of the global ring) */
+#define WRING 96
+static struct { uint64_t step; short kind, site; const void *p; } g_wring[MVSIM_MAX_WORKERS][WRING];
+static uint64_t g_wring_n[MVSIM_MAX_WORKERS];
 static inline void ring_add(int wid, int kind, int site, const void *p) {
   unsigned i = (unsigned)(g_ring_n++ % RING);
   g_ring[i].step = g_st.steps; g_ring[i].wid = (short)wid; g_ring[i].kind = (short)kind; g_ring[i].site = (short)site; g_ring[i].p = p;
+  if (wid >= 0 && wid < MVSIM_MAX_WORKERS) {
+    unsigned j = (unsigned)(g_wring_n[wid]++ % WRING);
+    g_wring[wid][j].step = g_st.steps; g_wring[wid][j].kind = (short)kind; g_wring[wid][j].site = (short)site; g_wring[wid][j].p = p;
+  }
 }
+
+/* set while the simulator itself may call instrumented library code (the wrapped malloc of the
+   LD flavour): function-granularity points are suppressed then */
+static volatile int g_in_dispatch;
 
 /* decision / random / clock traces (for the replay file) */
 typedef struct { long *v; int n, cap; } lvec;
 static void lv_push(lvec *a, long x) {
   if (a->n == a->cap) {
     a->cap = a->cap ? a->cap * 2 : 1024;
+    int b = g_in_dispatch; g_in_dispatch = 1;
     a->v = realloc(a->v, sizeof(long) * a->cap);
+    g_in_dispatch = b;
     if (!a->v) { fprintf(stderr, "mvsim: out of memory\n"); _exit(4); }
   }
   a->v[a->n++] = x;
@@ -223,7 +239,21 @@ int mvsim_replay_write(const char *path, const char *vclass, const char *vmsg) {
       fprintf(f, "%s\"%llu w%d k%d s%d %p\"", k ? "," : "", (unsigned long long)g_ring[i].step, g_ring[i].wid, g_ring[i].kind, g_ring[i].site, g_ring[i].p);
     }
   }
-  fprintf(f, "],\n \"end\": 1\n}\n");
+  fprintf(f, "],\n \"trace_per_worker\": {");
+  {
+    int first = 1;
+    for (int w = 0; w < MVSIM_MAX_WORKERS; w++) {
+      if (!g_wring_n[w]) continue;
+      uint64_t n = g_wring_n[w] < WRING ? g_wring_n[w] : WRING;
+      fprintf(f, "%s\n  \"w%d\": [", first ? "" : ",", w); first = 0;
+      for (uint64_t k = 0; k < n; k++) {
+        unsigned i = (unsigned)((g_wring_n[w] - n + k) % WRING);
+        fprintf(f, "%s\"%llu k%d s%d %p\"", k ? "," : "", (unsigned long long)g_wring[w][i].step, g_wring[w][i].kind, g_wring[w][i].site, g_wring[w][i].p);
+      }
+      fprintf(f, "]");
+    }
+  }
+  fprintf(f, "},\n \"end\": 1\n}\n");
   fclose(f);
   return 0;
 }
@@ -344,11 +374,11 @@ void mvsim_begin_run(const mvsim_runcfg *c) {
   for (int i = 0; i < 8; i++) g_pct_points[i] = c->pct_len ? mvsim_rng_below(&g_rng_sched, c->pct_len) : 0;
   g_pct_low = -1;
   for (int i = 0; i < NSLOTS; i++) g_w[i].prio = (long)(mvsim_rng_next(&g_rng_sched) >> 2);
-  g_tr_sched.n = g_tr_rand.n = g_tr_clock.n = 0; g_ring_n = 0;
+  g_tr_sched.n = g_tr_rand.n = g_tr_clock.n = 0; g_ring_n = 0; memset(g_wring_n, 0, sizeof g_wring_n);
   g_rp_sched_i = 0; g_rp_sched_left = 0; g_rp_rand_i = 0; g_rp_clock_i = 0; g_replay_diverged = 0;
   worker *w = &g_w[0];
   w->state = W_READY; w->dirty = 1; w->saved_rank = mvsim_lib_rank(); w->last_kind = 0; w->last_site = 0;
-  w->stalled_until = 0;
+  w->stalled_until = 0; w->req_kind = 0; w->obs = g_progress;
   mvsim_cur = w;
   g_st.max_workers = 1;
   g_st.signature = 0xcbf29ce484222325ULL;
@@ -506,6 +536,7 @@ static void release_waiters_of(int id) {
 
 worker *mvsim_dispatch(struct mvreq *r) {
   worker *w = mvsim_cur;
+  g_in_dispatch = 1;
   w->saved_rank = mvsim_lib_rank();
   g_st.steps++;
   if (r->site >= 0 && r->site < 160) g_st.probe[r->site]++;
@@ -513,8 +544,16 @@ worker *mvsim_dispatch(struct mvreq *r) {
   if (r->kind == RQ_SPIN && r->site == MYTH_VS_SPIN_LOOP && w->last_kind == RQ_POINT
       && (w->last_site == MYTH_VS_SPIN_TRY || w->last_site == MYTH_VS_ATOMIC))
     w->dirty = 0;  /* the CAS of this iteration failed: nothing was written */
-  if (w->dirty) { g_progress++; w->dirty = 0; }
+  /* did anybody else make progress since this worker last resumed from a real point?  Only
+     possible when function-granularity points let others run between an observation (a failed
+     CAS, a flag read) and the spin hook that follows it. */
+  int foreign = (g_progress != w->obs);
+  if (r->kind != RQ_FUNC && w->dirty) { g_progress++; w->dirty = 0; }
+  w->req_kind = r->kind;
   switch (r->kind) {
+    case RQ_FUNC:
+      w->state = W_READY;
+      break;
     case RQ_POINT:
       if (!site_ro[r->site]) w->dirty = 1;
       w->state = W_READY;
@@ -524,7 +563,7 @@ worker *mvsim_dispatch(struct mvreq *r) {
       break;
     case RQ_SPIN:
       g_st.spins++;
-      w->state = W_SPIN; w->spin_seen = g_progress;
+      w->state = W_SPIN; w->spin_seen = foreign ? w->obs : g_progress;
       break;
     case RQ_BARRIER: {
       g_progress++;
@@ -550,14 +589,16 @@ worker *mvsim_dispatch(struct mvreq *r) {
       w->state = W_QUIESCE;
       break;
   }
-  w->last_kind = r->kind; w->last_site = r->site;
+  if (r->kind != RQ_FUNC) { w->last_kind = r->kind; w->last_site = r->site; }
   ring_add(w->id, r->kind, r->site, r->p);
   sig_mix(((uint64_t)w->id << 16) ^ (uint64_t)r->site ^ ((uint64_t)r->kind << 8));
   if (!g_drain && g_st.steps > g_cfg.budget1) { g_drain = 1; g_rr_left = 0; }
   if (g_st.steps > g_cfg.budget1 + g_cfg.budget2) hang("step budget exhausted under fair scheduling");
   worker *nx = choose(w);
   mvsim_cur = nx;
+  if (nx->req_kind != RQ_FUNC) nx->obs = g_progress;
   mvsim_lib_set_rank(nx->saved_rank);
+  g_in_dispatch = 0;
   return nx;
 }
 
@@ -576,6 +617,24 @@ void myth_verif_point(int site) {
   mvsim_enter(&r);
 }
 void mvsim_user_point(void) { myth_verif_point(MYTH_VS_NONE); }
+
+/* function-granularity schedule points (build flavour "fn": library compiled with
+   -finstrument-functions).  They are scheduling decisions only: they neither count nor clear
+   the "may have written" flag of the worker (see the progress accounting in mvsim_dispatch). */
+void __cyg_profile_func_enter(void *fn, void *site) __attribute__((no_instrument_function));
+void __cyg_profile_func_exit(void *fn, void *site) __attribute__((no_instrument_function));
+void __cyg_profile_func_enter(void *fn, void *site) {
+  (void)site;
+  if (!g_active || g_in_dispatch) return;
+  struct mvreq r = { RQ_FUNC, MYTH_VS_N_SITES + 1, fn, 0 };
+  mvsim_enter(&r);
+}
+void __cyg_profile_func_exit(void *fn, void *site) {
+  (void)site;
+  if (!g_active || g_in_dispatch) return;
+  struct mvreq r = { RQ_FUNC, MYTH_VS_N_SITES + 2, fn, 0 };
+  mvsim_enter(&r);
+}
 
 void myth_verif_spin(int site) {
   if (!g_active) return;
@@ -615,7 +674,7 @@ static worker *spawn_slot(int slot, void *(*fn)(void *), void *arg) {
   w->rsp = sp;
   w->fn = fn; w->arg = arg;
   w->state = W_READY; w->dirty = 1; w->saved_rank = -1; w->last_kind = 0; w->last_site = 0;
-  w->stalled_until = 0; w->spin_seen = 0;
+  w->stalled_until = 0; w->spin_seen = 0; w->req_kind = 0; w->obs = 0;
   g_progress++;
   return w;
 }
@@ -732,7 +791,7 @@ static int stack_class(int custom, size_t sz) { if (!custom) return 0; int k = 1
 static struct { uintptr_t lo, hi; } *g_live; static int g_nlive, g_caplive;
 
 static void ledger_reset(void) {
-  if (!g_led) g_led = calloc(LCAP, sizeof(lent));
+  if (!g_led) { int b = g_in_dispatch; g_in_dispatch = 1; g_led = calloc(LCAP, sizeof(lent)); g_in_dispatch = b; }
   g_led_gen++;
   if (g_led_gen == 0) { memset(g_led, 0, LCAP * sizeof(lent)); g_led_gen = 1; }
   memset(&g_ls, 0, sizeof g_ls);
@@ -775,7 +834,7 @@ static void live_add(uintptr_t lo, uintptr_t hi) {
     if (lo < g_live[i].hi && g_live[i].lo < hi)
       mvsim_violation("LEDGER", "stack [%#lx,%#lx) handed out while overlapping live stack [%#lx,%#lx)",
                       (unsigned long)lo, (unsigned long)hi, (unsigned long)g_live[i].lo, (unsigned long)g_live[i].hi);
-  if (g_nlive == g_caplive) { g_caplive = g_caplive ? g_caplive * 2 : 256; g_live = realloc(g_live, g_caplive * sizeof *g_live); }
+  if (g_nlive == g_caplive) { g_caplive = g_caplive ? g_caplive * 2 : 256; int b = g_in_dispatch; g_in_dispatch = 1; g_live = realloc(g_live, g_caplive * sizeof *g_live); g_in_dispatch = b; }
   g_live[g_nlive].lo = lo; g_live[g_nlive].hi = hi; g_nlive++;
 }
 static void live_del(uintptr_t lo) {
